@@ -2692,7 +2692,7 @@ static iwrc _jbl_target_apply_patch(struct jbl_node *target, const struct jbl_pa
             value->klidx = idx;
             value->parent = parent;
             value->next = child;
-            value->prev = child->prev;
+            value->prev = child->prev ? child->prev : child; // A lone element has no prev: it is the last one now
             child->prev = value;
             if (child == parent->child) {
               parent->child = value;
